@@ -147,7 +147,7 @@ var obsPriority = map[string]int{"hash": 0, "range-hash": 1, "range-count": 2, "
 
 type comparer struct {
 	df       int
-	a, b     ldiff.Diff // a = index under test, b = fresh
+	a, b     ldiff.Diff            // a = index under test, b = fresh
 	visited  map[ldiffkit.Rng]bool // asked ranges -> whether a side answered with a hash
 	queries  int
 	hashed   int // queries answered with a hash by at least one side
